@@ -5,11 +5,11 @@ TRUSTED_BASE = [
     "axioms allowed per theorem, audited with #print axioms: propext, Classical.choice, Quot.sound (no native_decide, no bv_decide, no sorry)",
     "translator: harness `dump` (links the working-tree crate with feature verif-hooks) + tools/gen_lean.py -> lean/SameVerif/Gen/*.lean",
     "correspondence harness (/verif/harness, Rust) and the compiled Lean driver `samemodel` (Lean compiler/runtime executes the model; cannot make a theorem true)",
-    "hooks in /repo (feature verif-hooks): re-exports and three add-only observation taps",
+    "hooks in /repo (feature verif-hooks): re-exports (incl. Agc, DCBlocker, TimingLoop, the PI-gain computation) and four add-only observation taps (T0 timing-error-detector samples, T1 squelch, T2 byte clock, T3 symbol ticks)",
     "rustc/LLVM, core/std, and the crates regex, chrono, phf, strum, arrayvec, arraydeque: modelled and validated by correspondence, not verified",
 ]
 
-HOOK_COMMITS = ["89cac3b", "2698c5e"]
+HOOK_COMMITS = ["89cac3b", "2698c5e", "6681146", "7adda70"]
 
 # properties not (yet) claimed; every one has an executable logic core and is planned (DESIGN.md §9)
 NOT_APPLICABLE = {}   # every property is claimed
@@ -124,7 +124,7 @@ PROPS = {
     "C01": {
         "thm": ["SameVerif.Thm.C01", "SameVerif.Thm.Chain", "SameVerif.Thm.C01r", "SameVerif.Thm.C01s", "SameVerif.Thm.ChainR", "SameVerif.Thm.C01t", "SameVerif.Thm.ChainT", "SameVerif.Thm.TransportFull", "SameVerif.Thm.ChainFull"],
         "thm_thorough": ["SameVerif.Thm.ChainFullDemo"],
-        "suites": ["sigc01"],
+        "suites": ["sigc01", "fullrx"],
         "spec_filter": r"^spec\.sig (c01|fe) ",
         "technique": "Lean 4 theorems about the discrete chain (sync-word ambiguity, warm-up; digital chain theorem under front-end assumptions) + in-situ correspondence of the link and transport models on tapped real runs + sampled signal-level decoding over the property's line-condition domain",
         "level_text": "PARTIAL by nature: no theorem is about f32 DSP. Proved in Lean: the sync word is four preamble bytes, every misaligned 32-bit window over the preamble is 8 or 24 bit errors away (never within a budget <= 7), warm-up behaviour; one observed burst is delivered exactly once as payload ++ tail (burst_delivered); and the DIGITAL CHAIN composed end to end (Thm/Chain transmission_decoded): for every canonical header H, if the front end delivers what Spec.BurstObserved says for three bursts of H (acquisition within 90 preamble bits, correct hard decisions and equalizer bytes from there, release after the carrier stops) followed by silence for the hold time, with the three segments inside the history window, the voted link-layer tails free of '-' (F7's condition) and the sample counter within one forced-EOM timeout, then link model -> framer -> assembler -> receiver glue emit EXACTLY ONE message event, a StartOfMessage with text exactly H, offset of '+', zero parity count, voting count 0 or |H|; instantiated on a concrete 3-burst stream (demo_decoded). The front-end ASSUMPTIONS were measured against the real DSP and REFINED: the first formalisation (Spec.BurstObserved: open threshold rises exactly when the correlator window is right, and is down in the whole lead and tail) is met by 0 % of 957 real tapped bursts, so Thm/C01r, C01s, ChainR re-prove everything under Spec.StreamObserved — per burst: bits, close threshold and (31 ticks later) open threshold right from an acquisition index acq <= 89, equalizer bytes right, release after the carrier stops; globally: outside the synchronised stretches NO tick has both the open threshold met and a correlator window within maxErrors of the sync word (C01s.stream_bursts, ChainR.stream_decoded, from the INITIAL states). StreamObserved is decidable and its `decide` IS the check the driver runs on every sampled run's taps (C01s.checked_stream_bursts: check = true => the link model delivers exactly the transmitted bursts): per-run certificates, counted in the evidence (suites.sigc01.assumption_checks; quick tier: 779 of 960 bursts, 59 of 160 whole transmissions). Thm/C01t and ChainT generalise once more (Spec.StreamObserved2): per burst a `sync` tick at which the adjusting hit happens, the lead-in run through an abstract squelch automaton (Spec/PreSync preRun, proved to be followed by the link model: preRun_sim) that allows early hits on a partially filled window, hits at a neighbouring bit phase followed by a re-synchronisation, hits dropped at once, and a close-threshold flicker after release; also decidable and decided per run (fe2_all): about 148 of 160 whole transmissions of the quick tier are certified by C01t.checked_stream_bursts2 / ChainT.stream_decoded2; the rest (lead-in under 32 ticks, no alignment) are covered by correspondence and oracle only. The WHOLE transmission is composed too (Thm/TransportFull full_transmission: three header bursts, a release poll, three trailer bursts with any polls => outputs exactly [StartOfMessage H, EndOfMessage], the EndOfMessage at the first trailer burst if the header bursts have expired and at the second otherwise; Thm/ChainFull stream_full2: six observed bursts on one tick stream from the initial states, a hit-free hold between the groups => the message events are exactly [StartOfMessage with text H, EndOfMessage], in that order; instantiated on a 3252-tick stream in ChainFullDemo, thorough tier), with kernel-checked witnesses of what happens when a hypothesis is dropped (no release poll: F4; a third burst after the record expired: F5; a long trailer tail: second StartOfMessage). C03/C06/C07 supply the combiner, parser and framer theorems the chain rests on. Tie: for every sampled transmission the real receiver's tapped observation streams are replayed on the Lean link model and transport/receiver model, which must reproduce the real link states and the real event trace, timestamps included. Sampled: complete transmissions over rates 8..96 kHz (standard and arbitrary), amplitude, DC, phase, sub-sample start, +-1 % baud, pause 1 s +-5 %, noise to 20 dB SNR, lead-in, voice gap; the oracle demands exactly [StartOfMessage H, EndOfMessage].",
@@ -134,12 +134,12 @@ PROPS = {
         "assumptions": ["FE1-FE4 (acquisition, tracking, release, clock) hold for the real DSP on the property's line conditions: measured on every sampled case (counters fe*), never proved"],
     },
     "C02": {
-        "thm": "SameVerif.Thm.C02",
+        "thm": ["SameVerif.Thm.C02", "SameVerif.Thm.C02poll"],
         "suites": ["asmseq", "asmscen", "sigmask"],
         "spec_filter": r"^spec\.(asm|sig) c02 ",
         "technique": "Lean 4 theorems on the assembler model for every header, every poll schedule (two intact bursts are reported exactly once; a single burst never yields a StartOfMessage) + kernel-evaluated counterexample for the known lost-trailer case + correspondence with private state + full 64-mask sweeps at transport and signal level",
         "level_text": "Proved in Lean: combine of two identical canonical headers is exactly that header (voting 0, parity 0); from an empty assembler, two intact bursts within the history window, with ANY polls in between and ANY polls before the hold expires, yield no output until the first poll at or after t2+hold, which outputs exactly StartOfMessage H; a single burst followed by any polls never yields a StartOfMessage (only a lone NN.. burst yields a fast EndOfMessage); three maximum-length bursts at the longest pause fit the history window (over the generated constants); C03.combine_two_of_three covers the corrupted third burst in all orders. The full trailer clause is FALSE today in one region: eom_lost_counterexample evaluates the history H@1000, H@2900, NNNN@3581, NNNN@4262 to [StartOfMessage] only (known finding F4, reproduced on the real receiver at signal level). Tie: hook-level correspondence incl. private state; all 64 presence masks x corruption x gaps x pauses x lengths at transport level with a poll at every idle tick, and all 64 masks at signal level, judged by the C02 oracle.",
-        "level_note": "The transport-level theorem for three bursts with a corrupted one under arbitrary interleaved polls is covered by the sweep, not yet by a poll-schedule-generic theorem. One open known finding (F4).",
+        "level_note": "The corrupted-burst clause is now a poll-schedule-generic theorem (Thm/C02poll two_of_three_polls): for every canonical header H, EVERY third burst X (any bytes, any length, empty, NN-prefixed, a truncated or extended H) in any of the three positions, any polls in time order, bursts within the history window: exactly ONE StartOfMessage is output and its text is H. For X first or in the middle the proof forces the hypothesis NoHeaderPrefix H (no proper prefix of H is itself a complete header; true whenever the callsign holds no '-', noHeaderPrefix_of_dashfree_callsign) and the kernel-checked counterexample prefix_header_reported_twice shows what happens without it (a burst cut short inside a callsign with '-' is reported as a shorter header, then H: N2/F7's greedy-callsign family). One open known finding (F4).",
         "rule": ASM_RULE + " sigmask: all 64 presence masks x header-to-trailer gaps x rates at signal level with bursts replaced by silence.",
         "exhaustive": False,
         "assumptions": ["ticks are non-decreasing", "the receiver polls on every NoCarrier tick and never while the link is busy (receiver model, C13)"],
@@ -150,14 +150,14 @@ PROPS = {
         "spec_filter": r"^spec\.(asm c05|asm c05w|asm c05g|sig c05one|sig c05seq) ",
         "technique": "Lean 4 invariants over all assembler operation histories (history bound, duplicate-suppression invariant) lifted to runs: two consecutive reports of the same text are at least MAX_HISTORY_DURATION apart; re-report after the window; kernel-evaluated counterexample for the known duplicate trailer; run-level ORDER theorems (Thm/C05seq): two different headers transmitted one after the other (three or two bursts each, any polls, first one released before the second arrives, gap outside the zone where exactly one burst of the first is still remembered) are reported exactly once each, in the order transmitted; the same header twice is reported once if the repeat ends inside the window and twice if it begins after it (sharp: repeat_straddling_window_reported); for EVERY sorted history the reports follow the burst log (each report is `combine` of a run of at most three consecutive bursts, and the runs' end positions are strictly increasing); kernel-checked counterexamples for what is false (no poll between the transmissions: F8; the one-burst zone: a decode error, or even a never-transmitted shorter header, can be reported in between) + scenario sweeps with subsequence and window oracles",
         "level_text": "Proved in Lean over every sorted operation list from the initial state: the history never holds more than two bursts and every entry is live and bounded; the duplicate-suppression invariant is preserved by idle and assemble; consequently two consecutive message reports with the same text are at least HIST ticks apart (dedup window, measured from the report, exactly HIST long), and a message whose combine succeeds after the previous entry expired is accepted again (re-report). The at-most-once clause is FALSE today for trailers: eom_twice_counterexample evaluates NNNN@100, NNNN@805, NNNN@1510, X@6215 to two EndOfMessage (known finding F5); eom_once_partial states exactly when a second EOM can occur. Tie and exploration as C02; the oracle checks that the reported sequence is an in-order subsequence of the transmitted one (no duplicates) and both edges of the window.",
-        "level_note": "Order preservation across different messages is checked by the subsequence oracle on sweeps, not proved. One open known finding (F5).",
+        "level_note": "Order preservation is proved at transport level (Thm/C05seq reports_in_log_order, som_reports_in_log_order, two_transmissions_in_order and its variants); at signal level it is checked by the subsequence oracle on sweeps. One open known finding (F5).",
         "rule": ASM_RULE,
         "exhaustive": False,
         "assumptions": ["ticks are non-decreasing"],
     },
     "C18": {
-        "thm": "SameVerif.Thm.C18",
-        "suites": ["sigreset"],
+        "thm": ["SameVerif.Thm.C18", "SameVerif.Thm.Dsp"],
+        "suites": ["sigreset", "dsp"],
         "spec_filter": r"^spec\.c18\.",
         "technique": "Lean 4 theorem on a field-level model of every component's new()/reset() (reset s equals init cfg in every live field, for ANY state) + proof in the link model that the one differing field (equalizer mode) is dead (train() precedes the next use) + field-by-field Debug comparison and event/timestamp comparison against a fresh receiver after resets swept through every phase",
         "level_text": "Proved in Lean: in the field model mirroring DCBlocker/Agc/FskDemod/TimingLoop/CodeAndPowerSquelch/Equalizer/Framer/Assembler/SameReceiver reset code, reset() of ANY state equals a freshly built receiver of the same configuration in every field except the equalizer's training mode; in the link model a receiver whose byte clock is stopped (which reset() and end() guarantee) always re-synchronises first, and a re-synchronisation calls train() before the equalizer is used, so that field cannot influence behaviour. "
@@ -205,9 +205,9 @@ PROPS = {
         "assumptions": ["FE4: the symbol clock on silence stays above half its nominal rate", "release latency <= 300 ticks (sampled)"],
     },
     "C17": {
-        "thm": "SameVerif.Thm.C17",
-        "suites": ["cfgfuzz"],
-        "spec_filter": r"^spec\.c17\.",
+        "thm": ["SameVerif.Thm.C17", "SameVerif.Thm.Dsp"],
+        "suites": ["cfgfuzz", "dsp"],
+        "spec_filter": r"^spec\.(c17\.|dsp\.(agc|dc1) )",
         "technique": "Lean 4 theorem that every integer panic guard reachable from build() holds for all documented configurations and rates >= 8 kHz (after the fix of F1) + correspondence of the derived lengths + product of boundary/random values of all 14 builder parameters through the real build() and a short run under catch_unwind",
         "level_text": "Proved in Lean for every rate >= 8000, every DC-blocker length including the documented 0.0, the equalizer disabled or with any requested orders: the DC window, the demodulator window and both equalizer windows have length >= 1 and feedback order <= feed-forward order, i.e. every assert!(len > 0), from_identity(len-1) and usize::clamp(_, 1, nff) reachable from build() is satisfied. The derived lengths of the model are compared with the real receiver's (read from its Debug rendering). "
                       "Sampled: 1500 (quick) / 40000 (thorough) configurations from the product of special values, clamping edges, values beyond the clamps and random values of all parameters x rates 8000..192000, each built and run on a burst under catch_unwind with overflow checks on. The genuine defect F1 (DC length 0.0 panics) found by this check was repaired by a fix: commit.",
@@ -234,7 +234,7 @@ PROPS = {
         "thm": "SameVerif.Thm.C12",
         "suites": ["app"],
         "needs_samedec": True,
-        "spec_filter": r"^spec\.c12 ",
+        "spec_filter": r"^spec\.c12(\.wait)? ",
         "technique": "Lean 4 theorems on the app model (exactly one child per StartOfMessage; the k-th child's stdin is the half-open sample range from its header's position to the next message's position or end of input; ranges in bounds, ordered, non-overlapping; one spawn attempt per StartOfMessage) + recorder child dumping environment and stdin, compared byte for byte, + Lean oracle restating the environment from the header model",
         "level_text": "Proved in Lean for every message trace: with a child configured and spawns succeeding the children are exactly expectedChildren (one per StartOfMessage, in order, each fed samples [position of its header, position of the next message or end of input)); for ANY oracle the children are a sublist of that specification (a failed spawn removes only that child), every StartOfMessage gets exactly one spawn attempt, ranges are within the input, ordered and non-overlapping; no child and no attempt without configuration. "
                       "Tie: a recorder child dumps SAMEDEC_* and its stdin for every spawn; the harness checks the stdin bytes equal the exact input slice and the Lean oracle re-derives every variable from the header text with the C06/C16/C15 models: MSG, RATE, ORG, ORIGINATOR, EVT, EVENT, SIGNIFICANCE, SIG_NUM, LOCATIONS (space-separated), IS_NATIONAL, and PURGETIME - ISSUETIME = validity duration.",
@@ -257,9 +257,9 @@ PROPS = {
         "assumptions": ["OS: EPIPE on write to a closed pipe with SIGPIPE ignored; wait() returns after exit"],
     },
     "C10": {
-        "thm": "SameVerif.Thm.C10",
-        "suites": ["sighostile"],
-        "spec_filter": r"^spec\.sig c10 ",
+        "thm": ["SameVerif.Thm.C10", "SameVerif.Thm.Dsp"],
+        "suites": ["sighostile", "dsp", "fullrx"],
+        "spec_filter": r"^spec\.(sig c10|dsp\.(agc|tl|clock)) ",
         "technique": "Lean 4 theorems on the link model from EVERY invariant-satisfying state (32 ticks below both thresholds return it to unsynchronised/unlocked/idle and emit a frame in progress; after 64 such ticks all future behaviour equals a cold-started link's) + hostile-prefix audio library through the real receiver under catch_unwind, replayed on the models",
         "level_text": "PARTIAL by nature (float finiteness and AGC/timing recovery are sampled). Proved in Lean for the discrete link layer: a structural invariant holds in every reachable state; from ANY state satisfying it - mid-burst, locked, framer reading, any correlator/power-history contents - 32 symbol ticks with power below both thresholds (bits and equalizer bytes arbitrary) leave the byte clock stopped, the lock released and the framer idle, and a frame in progress is emitted, not lost (the bound 32 is tight); a quiet unsynchronised link stays quiet; correlator and power history forget everything older than 32 ticks; consequently after 64 such ticks the link's answers to EVERY future input equal those of a cold-started link that heard the same last 32 ticks (bisimulation, equalizer-training field dead). The only partial operation on that path (`power_history.front().expect`) is shown to be safe. "
                       "Sampled: 60 (quick) / 1500 (thorough) hostile prefixes composed of 1..5 segments from 12 generators (random and boundary samples to +-2^20, clipping squares, DC steps, truncated and malformed transmissions, endless preamble, garbage carrier, level jumps, impulses, ramps, noise), then >= 1 s of quiet and a C01 transmission: no panic (catch_unwind, overflow checks on), exact decode of the final transmission, no non-finite number in the Debug rendering; every run is replayed on the link and transport models.",
